@@ -3,6 +3,7 @@ package pocketpure
 import (
 	"bytes"
 	"fmt"
+	"github.com/pokt-network/pocket-core/codec"
 	"testing"
 
 	"pgregory.net/rapid"
@@ -420,6 +421,12 @@ func c30KeeperReplay(rt *rapid.T, c *harness.Case) {
 		mode = c31Mode{"post-upgrade", true}
 	}
 	mode.apply()
+	// in a third of the post-upgrade cases the replay burn was activated AFTER the claimed session started (session height 2)
+	// but before the proof is processed (height 6): what counts is the height at which the proof is processed
+	if mode.upgraded && rapid.SampledFrom([]int{0, 0, 1}).Draw(rt, "repbrActivatedAfterSessionStart") == 1 {
+		codec.UpgradeFeatureMap[codec.ReplayBurnKey] = int64(rapid.IntRange(3, 6).Draw(rt, "repbrAt"))
+		c.Label("replay-burn-activated-between-session-start-and-proof")
+	}
 	salt := uint64(rapid.IntRange(1, 1<<30).Draw(rt, "chainSalt"))
 	const s = int64(2)
 	fx := newChainFx(1, 2, 6, salt)
